@@ -61,10 +61,37 @@ const (
 	routeAdv
 	routeIter
 	routeFind
+	routeElems
 	nRoutes
 )
 
-var routeNames = []string{"AdvanceInto-scan", "Advance/NextElementBytes", "AdvanceIter/ForEach", "FindKey/FindPath"}
+var routeNames = []string{"AdvanceInto-scan", "Advance/NextElementBytes", "AdvanceIter/ForEach", "FindKey/FindPath", "Object.Parse/Elements"}
+
+// locateElems parses the object that holds l into Elements (before the edit) and returns them
+// with the index of l's member: the edit then goes through the stored Element's iterator and
+// the same Elements are marshalled afterwards. ok=false when l's parent is not an object.
+func locateElems(pj *simdjson.ParsedJson, roots []*ref.Value, l Loc) (els *simdjson.Elements, idx int, parent Loc, ok bool, err error) {
+	p, i, has := parentOf(l)
+	if !has || modelAt(roots, p).K != ref.Object {
+		return nil, 0, p, false, nil
+	}
+	pit, err := locateInto(pj, p)
+	if err != nil {
+		return nil, 0, p, true, err
+	}
+	o, err := pit.Object(nil)
+	if err != nil {
+		return nil, 0, p, true, err
+	}
+	els, err = o.Parse(nil)
+	if err != nil {
+		return nil, 0, p, true, err
+	}
+	if i >= len(els.Elements) {
+		return nil, 0, p, true, fmt.Errorf("Object.Parse yields %d members, the model has more than %d", len(els.Elements), i)
+	}
+	return els, i, p, true, nil
+}
 
 // locate returns an iterator positioned on the value at loc, obtained through
 // the chosen public route. The model is needed for key names (routeFind).
